@@ -46,7 +46,7 @@ SCALARS = {"name", "allow_delete", "allow_move", "allow_rename", "public", "visi
 
 
 def floors(tier):
-    return {"classes": 60, "pairs": 500, "C03.live": 800, "C03.reopen": 800, "C03.raw": 300, "ordered-sequences": 50}
+    return {"classes": 60, "pairs": 500, "C03.live": 800, "C03.reopen": 800, "C03.raw": 300, "ordered-sequences": 50, "clearing-assignments": 20, "inplace-assignments": 40, "closed-workspace-assignments-refused": 4, "colour-map-object-edits": 1}
 
 
 def EXHAUSTIVE(tier):
@@ -571,7 +571,7 @@ def run_case(case, rec):
                             rec.see("closed-workspace-assignments-accepted")
                             if judge_reader(rec, path, kind, uid, label, {attr: (v2, v2)}, "assign-while-closed") != "clean":
                                 uid = rebuild()
-                    else:  # lost or unreadable: start again from a fresh file so that later attributes are judged on their own
+                    if verdict != "clean":  # lost or unreadable: start again from a fresh file so that later attributes are judged on their own
                         uid = rebuild()
                         if verdict is False:  # and leave an attribute that breaks the file out of the sequences
                             n_ok = 0
